@@ -427,24 +427,31 @@ def payload_case(c):
     if c["kind"] == "clean":
         return dict(kind="clean", ws=c["ws"], experiment=c["experiment"], filter=c["text"], perform=c["perform"],
                     flags=c.get("flags", []), atom_texts=c.get("atom_texts"))
+    if c["kind"] == "real":
+        return dict(kind="real", plan=c["plan"], experiment=c["experiment"], filter=c["text"], perform=c["perform"],
+                    flags=[], atom_texts=c.get("atom_texts"))
     return dict(kind="orphans", ws=c["ws"], clean=c["clean"], ignore_old=c["ignore_old"], show_all=c.get("show_all", False))
 
 
 def run_cases(c, cases, tag="r"):
     if not cases:
         return []
-    nchunk = min(16, max(1, len(cases) // 40))
-    chunks = [cases[i::nchunk] for i in range(nchunk)]
+    # the slow cases (real scheduler) get a driver process each, the others are dealt round-robin
+    slow = [i for i, x in enumerate(cases) if x["kind"] == "real"]
+    fast = [i for i, x in enumerate(cases) if x["kind"] != "real"]
+    nchunk = min(16, max(1, len(fast) // 40))
+    groups = [[i] for i in slow] + [fast[k::nchunk] for k in range(nchunk) if fast[k::nchunk]]
 
-    def one(i):
-        return run_impl("drive_c19.py", dict(root=str(c.scratch() / f"{tag}{i}"),
-                                             cases=[payload_case(x) for x in chunks[i]]), timeout=1500)
+    def one(g):
+        return run_impl("drive_c19.py", dict(root=str(c.scratch() / f"{tag}{groups[g][0]}"),
+                                             cases=[payload_case(cases[i]) for i in groups[g]]), timeout=1500)
 
-    with ThreadPoolExecutor(max_workers=16) as ex:
-        res = list(ex.map(one, range(nchunk)))
+    with ThreadPoolExecutor(max_workers=24) as ex:
+        res = list(ex.map(one, range(len(groups))))
     out = [None] * len(cases)
-    for i, r in enumerate(res):
-        out[i::nchunk] = r
+    for g, r in zip(groups, res):
+        for i, a in zip(g, r):
+            out[i] = a
     return out
 
 
@@ -453,7 +460,7 @@ def with_texts(rng, c):
     if c["kind"] == "filter":
         c["text"] = expr_text(rng, c["expr"])
         c["atom_texts"] = [atom_text(rng, a) for a in atoms_of(c["expr"])]
-    elif c["kind"] == "clean":
+    elif c["kind"] in ("clean", "real"):
         c["text"] = None if c["expr"] is None else expr_text(rng, c["expr"])
         c["atom_texts"] = None if c["expr"] is None else [atom_text(rng, a) for a in atoms_of(c["expr"])]
     return c
@@ -539,6 +546,22 @@ def sweep_cases():
     return out
 
 
+def real_cases():
+    """workspaces written by the real scheduler (real params.json, markers, index links), then cleaned"""
+    plan = [["xpa", [["ok", 1, {"model": "bm25"}], ["ok", 2, {"model": "dense"}], ["fail", 3, {"model": "bm25"}]]],
+            ["xpb", [["ok", 2, {"model": "dense"}], ["fail", 4, {"model": "dense"}]]]]
+    m = lambda v: dict(k="in", v="model", l=[v, "zz"])                       # noqa: E731
+    st = lambda v: dict(k="eq", v="@state", o=dict(const=v))                 # noqa: E731
+    nm = dict(k="regex", v="@name", re=["cat", ["star", ["any"]], ["cat", ["chr", "o"], ["chr", "k"]]], eol=True, bol=False)
+    return [
+        dict(kind="real", plan=plan, experiment=None, perform=True, expr=dict(first=m("bm25"), rest=[["and", st("ERROR")]])),
+        dict(kind="real", plan=plan, experiment="xpb", perform=True, expr=None),
+        dict(kind="real", plan=plan, experiment="xpa", perform=True, expr=dict(first=dict(k="notin", v="model", l=["bm25"]), rest=[])),
+        dict(kind="real", plan=plan, experiment=None, perform=True, expr=dict(first=nm, rest=[["or", st("ERROR")]])),
+        dict(kind="real", plan=plan, experiment=None, perform=False, expr=None),
+    ]
+
+
 def golden_cases():
     f = ROOT / "golden" / "c19.json"
     return json.loads(f.read_text()) if f.exists() else []
@@ -565,7 +588,7 @@ def run(c: Check):
             cases.append(rp["case"])
         nf, nc, no = 0, 0, 0
     else:
-        cases += golden_cases() + sweep_cases()
+        cases += golden_cases() + sweep_cases() + (real_cases()[:3] if c.quick else real_cases())
         nf, nc, no = (1200, 500, 300) if c.quick else (30000, 9000, 5000)
     rng = c.rng
     for _ in range(nf):
@@ -592,6 +615,9 @@ def run(c: Check):
     for case, a in zip(cases, answers):
         case["ans"] = a
         c.evaluations += 1
+        if case["kind"] == "real":      # from here on an ordinary `jobs clean` case on the workspace the scheduler wrote
+            case.update(kind="clean", ws=a["ws"], real=True)
+            c.count("clean:workspace-by-real-scheduler")
         kind = case["kind"]
         c.count("kind:" + kind)
         e = case.get("expr")
